@@ -56,7 +56,10 @@ TraceHdrWords ==
 HdrBuildOK(c) ==
   LET fs0 == IF c[1] = "reply" THEN {"qr"} ELSE {}
       fs == fs0 \cup {n \in FlagNames : Bit(c[2], FlagBit(n))}
-  IN c[5] = FlagWord(fs, c[3], c[4])
+  IN /\ c[5] = FlagWord(fs, c[3], c[4])
+     \* the same word (after id 7, in a header of exactly 12 bytes) through write_to into writers that take one
+     \* byte / five bytes per write() call
+     /\ c[6] = FlagWord(fs, c[3], c[4]) /\ c[7] = FlagWord(fs, c[3], c[4])
 
 TraceHdrBuilds ==
   /\ Ev.ev = "HdrBuilds"
